@@ -139,6 +139,9 @@ func RunC12(c *Ctx) {
 		d := cs.Input
 		decodeCheck(c, cs, "Bool", d, rjson.ReadBool, rjson.DecodeBool, [2]bool{true, false}, eqc[bool])
 		decodeCheck(c, cs, "Float64", d, rjson.ReadFloat64, rjson.DecodeFloat64, [2]float64{-7.25e77, 3.5}, func(a, b float64) bool { return math.Float64bits(a) == math.Float64bits(b) })
+		// both zeros as prior targets: a 'store only if different' shortcut compares with ==, under
+		// which +0 and -0 are equal (seeded change C12r9-m2)
+		decodeCheck(c, cs, "Float64(zero targets)", d, rjson.ReadFloat64, rjson.DecodeFloat64, [2]float64{0, math.Copysign(0, -1)}, func(a, b float64) bool { return math.Float64bits(a) == math.Float64bits(b) })
 		decodeCheck(c, cs, "Int64", d, rjson.ReadInt64, rjson.DecodeInt64, [2]int64{-987654321987, 42}, eqc[int64])
 		decodeCheck(c, cs, "Int32", d, rjson.ReadInt32, rjson.DecodeInt32, [2]int32{-98765432, 42}, eqc[int32])
 		decodeCheck(c, cs, "Int", d, rjson.ReadInt, rjson.DecodeInt, [2]int{sentInt, 42}, eqc[int])
